@@ -1,7 +1,6 @@
 use std::sync::Arc;
 
 use futures::{StreamExt, TryStreamExt};
-use itertools::Itertools;
 
 use super::{
     byte_range::ByteRange, AsyncBytes, MaybeAsyncBytes, StorageError, StoreKey,
@@ -174,12 +173,19 @@ pub async fn async_store_set_partial_values<T: AsyncReadableWritableStorageTrait
     key_offset_values: &[StoreKeyOffsetValue<'_>],
     // truncate: bool
 ) -> Result<(), StorageError> {
-    let groups = key_offset_values
-        .iter()
-        .chunk_by(|key_offset_value| key_offset_value.key())
-        .into_iter()
-        .map(|(key, group)| (key, group.into_iter().cloned().collect::<Vec<_>>()))
-        .collect::<Vec<_>>();
+    // Group by key (not only consecutive entries): the groups below run concurrently,
+    // so two groups for one key would race on its read-modify-write
+    let mut groups: Vec<(&StoreKey, Vec<StoreKeyOffsetValue<'_>>)> = Vec::new();
+    for key_offset_value in key_offset_values {
+        if let Some((_, group)) = groups
+            .iter_mut()
+            .find(|(key, _)| *key == key_offset_value.key())
+        {
+            group.push(key_offset_value.clone());
+        } else {
+            groups.push((key_offset_value.key(), vec![key_offset_value.clone()]));
+        }
+    }
     futures::stream::iter(&groups)
         .map(Ok)
         .try_for_each_concurrent(None, |(key, group)| async move {
